@@ -778,6 +778,9 @@ def check_ops(ops: List[List[Any]], mode: str = "pool", impl: Optional[Impl] = N
         ref: Dict[str, Any] = {}
         ver: Dict[str, int] = {}
         known: Dict[str, Optional[int]] = {}
+        # (round 8) live[id]: THE replica this store handed out / took in for id and the application still holds; as long as
+        # it has not been discarded successfully every retrieval returns this very object - also after a discard that FAILED
+        live: Dict[str, Any] = {}
 
         def write(i, v):
             ver[i] = ver.get(i, 0) + 1
@@ -803,6 +806,8 @@ def check_ops(ops: List[List[Any]], mode: str = "pool", impl: Optional[Impl] = N
             def fail(sig, what, required=None):
                 return C.Failing(f"couch:{sig}", what, prefix, {"outcome": out, "requests": len(log)}, required)
 
+            if k == "drop" and obj is not None and live.get(obj.id) is obj:
+                del live[obj.id]                           # the application let go of the replica
             if k in ("mk", "modify", "drop"):
                 continue
             if k == "ext_put":
@@ -929,6 +934,11 @@ def check_ops(ops: List[List[Any]], mode: str = "pool", impl: Optional[Impl] = N
                 if f is None and kd in exp:
                     if k == "get" and kd == "handle":
                         o = impl.handles[out[1]]
+                        if i in live and o is not live[i]:
+                            return fail("identity:get:second-replica", f"get({i!r}) returned another object than the replica the store handed out "
+                                        "before and the application still holds: two replicas of one document, the stale one can overwrite "
+                                        "what the other one read (lost update)")
+                        live[i] = o
                         if o.id != i or Impl.dnum(o) != ref[i]:
                             return fail("map:get:content", f"get({i!r}) returned id={o.id!r} payload {Impl.dnum(o)}; the map holds {ref[i]}", ref[i])
                         if o.source == "":
@@ -940,6 +950,10 @@ def check_ops(ops: List[List[Any]], mode: str = "pool", impl: Optional[Impl] = N
                             return fail("phantom:add:unbound", "add returned normally but the object has no source")
                         if kd != "unit" and (obj.source != "") != bound:
                             return fail("phantom:add:bound-after-failure", "a rejected add changed the object's source")
+                    if k == "add" and kd == "unit":
+                        live[i] = obj
+                    if k == "discard" and kd == "unit":
+                        live.pop(i, None)
                     if k == "discard" and kd == "unit" and obj.source != "":
                         return fail("phantom:discard:source", f"the discarded object keeps source {obj.source!r}")
             # ---------------------------------------------------- the server's documents are exactly the reference map
